@@ -638,21 +638,22 @@ def inline_in_function(fn: ast.AST, helpers: dict[str, tuple[ast.AST, bool]], co
 
 
 def new_helpers(trees: dict[str, ast.Module], base: dict[str, Any]) -> dict[str, dict[str, tuple[ast.AST, bool, str | None]]]:
-    """module -> name -> (def, is_method, class name) for private functions that the baseline does not know."""
+    """module -> name -> (def, is_method, class name) for functions that the baseline does not know (public ones too: they are expanded
+    into their package callers like private ones, and only dropped when nothing refers to them any more)."""
     out: dict[str, dict[str, tuple[ast.AST, bool, str | None]]] = {}
     for mod, tree in trees.items():
         bm = base.get(mod)
         if bm is None:
             continue
         for st in tree.body:
-            if isinstance(st, FuncDef) and st.name.startswith("_") and st.name not in bm["functions"] and _inlinable(st):
+            if isinstance(st, FuncDef) and not st.name.startswith("__") and st.name not in bm["functions"] and _inlinable(st):
                 out.setdefault(mod, {})[st.name] = (st, False, None)
             elif isinstance(st, ast.ClassDef):
                 bc = bm["classes"].get(st.name)
                 if bc is None:
                     continue
                 for s2 in st.body:
-                    if isinstance(s2, FuncDef) and s2.name.startswith("_") and not s2.name.startswith("__") and s2.name not in bc["methods"] and _inlinable(s2):
+                    if isinstance(s2, FuncDef) and not s2.name.startswith("__") and s2.name not in bc["methods"] and _inlinable(s2):
                         out.setdefault(mod, {})[s2.name] = (s2, True, st.name)
     return out
 
